@@ -66,7 +66,10 @@ CHECKS = {
     "C05": dict(
         parts=[dict(pkg="table", run="^TestC05$",
                     quick=dict(shards=4, checks=150, timeout=300),
-                    thorough=dict(shards=16, checks=2500, timeout=1800))],
+                    thorough=dict(shards=16, checks=2500, timeout=1800)),
+               dict(pkg="table", run="^TestC05AutoSeat$",
+                    quick=dict(shards=1, checks=1, timeout=240),
+                    thorough=dict(shards=4, checks=1, timeout=600))],
         rule='cases = membership-heavy histories of 3-25 hands (arrivals before and after the first hand at every seat relative to the button, sitting-out players joining later, busts forced by short stacks, re-buys, departures, in-hand arrivals); oracle: three-valued eligibility model on the published button seats (must / must not / either for heads-up<->ring button jumps), continuity, at least two dealt in, bounded wait <= 3 hands; non-trivial = a hand where the dealt-in set differs from all seated players with chips, or a re-buy after a bust; distinct = distinct abstract traces',
         mandatory=dict(quick=['newcomer_between', 'newcomer_outside', 'rebuy_after_bust', 'sitout_then_join', 'someone_waited_or_sat_out', 'waited_1']),
         assumptions=ASSUME_COMMON,
